@@ -179,7 +179,7 @@ func c14Class(s string) string {
 }
 
 func runC14(r *core.Run) {
-	r.Rule("(1) round trips NewTokenV3/V4 -> Serialize -> DecodeToken over generated proof lists (0..40 proofs, 1..4 hex keyset ids, secrets incl. NUT-10 JSON / quotes / backslashes / non-ASCII, witnesses, DLEQ absent / e,s only / complete / mixed, amounts up to 2^63, includeDLEQ on/off): mint URL, unit, proof multiset and Amount() must survive; (2) decoder totality: every prefix of valid tokens, every string of length 0..5 over {c,a,s,h,u,A,B,e,=,-,_,0}, cashuA/cashuB + short suffixes, single-byte mutations and truncations, wrong prefixes, base64 of generated JSON / CBOR values — no entry point and no accessor may panic; non-trivial = distinct inputs (round trips that succeeded; decoder inputs by value)")
+	r.Rule("(1) round trips NewTokenV3/V4 -> Serialize -> DecodeToken over generated proof lists (0..40 proofs, 1..4 hex keyset ids, secrets incl. NUT-10 JSON / quotes / backslashes / non-ASCII, witnesses, DLEQ absent / e,s only / complete / mixed, amounts up to 2^63, includeDLEQ on/off): mint URL, unit, proof multiset and Amount() must survive; (2) decoder totality: every prefix of valid tokens, every string of length 0..5 over {c,a,s,h,u,A,B,e,=,-,_,0}, cashuA/cashuB + short suffixes, white space and control characters alone / around / inside the prefix and around valid tokens, single-byte mutations and truncations, wrong prefixes, base64 of generated JSON / CBOR values — no entry point and no accessor may panic; non-trivial = distinct inputs (round trips that succeeded; decoder inputs by value)")
 	r.Assume("trusted: encoding/json, fxamacker/cbor, encoding/base64; only valid UTF-8 secrets and lower-case hex are generated")
 	nRT := pick(r, 2000, 60000)
 	// ---------------- (1) round trips
@@ -310,6 +310,22 @@ func runC14(r *core.Run) {
 			}
 		}
 		g2(pre, 2)
+	}
+	// white space and control characters: alone (every length 0..12 of each kind, mixed), around
+	// and inside the prefix, around valid tokens — what a paste from a terminal or a mail brings
+	for _, ws := range []string{" ", "\n", "\t", "\r\n", "\x00", "\u00a0", "\u2028"} {
+		for n := 0; n <= 12; n++ {
+			inputs = append(inputs, strings.Repeat(ws, n))
+		}
+		for _, pre := range []string{"cashu", "cashuA", "cashuB", "cash", "c"} {
+			inputs = append(inputs, ws+pre, pre+ws, ws+ws+pre, pre+ws+ws, ws+pre+ws, pre[:1]+ws+pre[1:], strings.Repeat(ws, 6)+pre, pre+strings.Repeat(ws, 6))
+		}
+	}
+	inputs = append(inputs, " \n\t\r \n\t\r", "\n\n\n\n\n\ncashuA", "cashuA\n\n\n\n\n\n", "  cashu", "cashu\r\n", "cashu  A", " c a s h u A ")
+	for i, t := range validTokens {
+		if i < 6 {
+			inputs = append(inputs, " "+t, t+" ", "\n"+t+"\n", t+"\r\n", "\t"+t, t[:6]+" "+t[6:], t[:5]+"\n"+t[5:])
+		}
 	}
 	// base64 of JSON values after cashuA
 	jsonVals := []string{`{}`, `[]`, `null`, `true`, `1`, `"x"`, `{"token":[]}`, `{"token":null}`, `{"token":[{}]}`, `{"token":[{"mint":"m"}]}`,
